@@ -322,7 +322,7 @@ inline void runWorkload(const Workload& w, OutputSink& out)
             for (const auto& c : w.enc)
             {
                 auto batch = buildBatch(c);
-                auto frames = enc.encode(batch.begin(), batch.end(), lib::DataContext{c.minB, c.maxB});
+                auto frames = encodeVia(enc, batch, lib::DataContext{c.minB, c.maxB}, c.overload);
                 out.num(enc.getSequenceCounter(), "encoder.sequenceCounter");
                 for (const auto& f : frames)
                 {
@@ -459,13 +459,29 @@ inline rc::Gen<Workload> genWorkload(int tier)
                 p.allowEmpty = true;
                 int n = *range<int>(1, 3);
                 for (int i = 0; i < n; ++i)
-                    w.enc.push_back(*genEncCase(p));
+                {
+                    EncCase c = *genEncCase(p);
+                    c.overload = *range<uint8_t>(0, 3);
+                    // a quarter of the batches hold a packet with a zero-length payload (it can open a frame without a message)
+                    if (*range<int>(0, 3) == 0)
+                    {
+                        PacketRecipe z;
+                        z.kind = rkGeneric;
+                        z.msgType = *rc::gen::element<uint8_t>(1, 2, 3, 0xFF);
+                        z.ptype = *rc::gen::element<uint8_t>(0x01, 0x20, 0xFF);
+                        z.len = 0;
+                        z.emptyPayload = 1;
+                        c.packets.insert(c.packets.begin() + static_cast<std::ptrdiff_t>(*range<size_t>(0, c.packets.size())), z);
+                    }
+                    w.enc.push_back(c);
+                }
                 break;
             }
             case 1:
             {
                 HistoryGenParams p;
                 p.maxFrames = tier ? 40 : 20;
+                p.bigSegmentHistories = 12;
                 w.hist = *genFrameHistory(p);
                 // two thirds of the histories also hold frames with typed payloads the validators accept
                 if (*range<int>(0, 2) != 0)
